@@ -56,6 +56,8 @@ type ViolationRecord struct {
 	TapeLen   int    `json:"tape_len"`
 	ShrunkLen int    `json:"shrunk_len"`
 	ShrinkRun int    `json:"shrink_runs"`
+	Panic     string `json:"panic,omitempty"` // stack of the first task panic of the original run
+	ReplayOK  bool   `json:"replay_ok"`       // the recorded tape reproduced the violation in the same process
 }
 
 // Sample is a trace excerpt written into the evidence.
@@ -497,12 +499,14 @@ func minimise(t *testing.T, w World, env Env, seed uint64, o *simrt.Outcome, v s
 		return nd, true
 	}
 	// first make sure the recorded tape reproduces at all
+	replayOK := false
 	if nd, ok := test(orig); ok {
+		replayOK = true
 		best = Shrink(nd, test, budget)
 	} else {
 		bestOut, bestV = o, v
 	}
-	rec := ViolationRecord{Violation: bestV, Seed: seed, TapeLen: orig.Total(), ShrunkLen: best.Total(), ShrinkRun: runs}
+	rec := ViolationRecord{Violation: bestV, Seed: seed, TapeLen: orig.Total(), ShrunkLen: best.Total(), ShrinkRun: runs, Panic: o.Panic, ReplayOK: replayOK}
 	rf := ReplayFile{Property: v.Prop, World: w.Name, Rule: bestV.Rule, Sig: bestV.Sig, Tier: env.Tier, Seed: seed, Repo: os.Getenv("VERIF_REPO_ID"),
 		Tape: best, Violation: bestV.Msg, Trace: trace(bestOut, 400)}
 	if dir != "" {
